@@ -4,9 +4,9 @@ import vcheck
 from vcheck import sh, BIN, REPO
 import c17
 
-GO_CMDS = ["gengrammar", "h_parse", "h_crash"]
-TRANSLATORS = ["gengrammar"]
-COQ_PROJECTS = ["Grammar", "Engine"]
+GO_CMDS = ["gengrammar", "genlex", "h_parse", "h_crash"]
+TRANSLATORS = ["gengrammar", "genlex"]
+COQ_PROJECTS = ["Grammar", "Lexer", "Engine"]
 TRUSTED = vcheck.STD_TRUSTED + [
     "channel/goroutine semantics of the Go runtime as modelled in coq/Engine/Chan.v (FIFO buffered channel, close, range)",
     "planning and execution are NOT modelled for this property: panics, hangs and leaks there are only observed by the "
@@ -28,7 +28,7 @@ def run(ctx):
     ctx.add_obligations(info)
     ctx.cov["checker_cmd"] = "coqc -Q coq/Engine BWEngine -Q coq/Grammar BWGrammar coq/Engine/Props/C08.v"
     thorough = ctx.tier == "thorough"
-    rows = crash(["-seed", str(ctx.seed), "-n", "40000" if thorough else "800", "-exhaust", "3" if thorough else "2"])
+    rows = crash(["-seed", str(ctx.seed), "-n", "40000" if thorough else "500", "-exhaust", "3" if thorough else "2"])
     known = vcheck.known_findings("C08")
     hits = collections.Counter()
     reported = 0
